@@ -47,11 +47,15 @@ func remakeHostNodes(r *hx.R, nodes []hostNode) []hostNode {
 		_ = os.Remove(n.Path)
 		t := hx.Pick(r, []string{"c", "b", "p"})
 		mode := map[string]uint32{"c": unix.S_IFCHR, "b": unix.S_IFBLK, "p": unix.S_IFIFO}[t]
-		ma, mi := int64(1+r.Intn(250)), int64(r.Intn(250))
+		ma, mi := pickDevNum(r)
 		if t == "p" {
 			ma, mi = 0, 0
 		}
 		if err := unix.Mknod(n.Path, mode|0o600, int(unix.Mkdev(uint32(ma), uint32(mi)))); err != nil {
+			continue
+		}
+		if !rdevIs(n.Path, ma, mi) {
+			_ = os.Remove(n.Path)
 			continue
 		}
 		out = append(out, hostNode{n.Path, t, ma, mi})
@@ -197,6 +201,8 @@ func genInjectSuite(r *hx.R, tier, scratch, prop string) (*hx.Suite, error) {
 		cache, _ := cdi.NewCache(cdi.WithSpecDirs(fs.dirList()...), cdi.WithAutoRefresh(false))
 		resolvable := cache.ListDevices()
 		image0 := cacheImage(cache)
+		fsTerm, fsDesc := fs.term(), fs.desc() // the directories as the cache has read them
+		var diskHistory []string
 		var steps []injStep
 		nontrivial := false
 		switch prop {
@@ -272,9 +278,22 @@ func genInjectSuite(r *hx.R, tier, scratch, prop string) (*hx.Suite, error) {
 			nsteps := 2 + r.Intn(4)
 			wbDir := filepath.Join(scratch, fmt.Sprintf("wb%d", i))
 			varyRequest := r.Chance(0.5)
+			diskChange := r.Chance(0.5)
 			for j := 0; j < nsteps; j++ {
 				if j > 0 && r.Chance(0.6) {
 					cur = remakeHostNodes(r, cur)
+				}
+				if j == 1 && diskChange {
+					// the Spec files change on disk and nobody refreshes this manual-mode cache: it keeps answering from what it
+					// has read, also after a request that fails on a device it does not know
+					for k, n := 0, 1+r.Intn(3); k < n; k++ {
+						diskHistory = append(diskHistory, fs.mutate(r, true, false))
+					}
+					miss := append(append([]string{}, names...), hx.Pick(r, append(append([]string{}, pool...), "vendor9.com/gpu=dev1", "vendor1.com/gpu=none")))
+					if r.Chance(0.5) {
+						miss = miss[len(miss)-1:]
+					}
+					steps = append(steps, doInject(cache, cur, init, miss, image0, "", false))
 				}
 				req := names
 				if varyRequest && j > 0 {
@@ -308,8 +327,8 @@ func genInjectSuite(r *hx.R, tier, scratch, prop string) (*hx.Suite, error) {
 			descs[j] = steps[j].desc()
 		}
 		sort.Strings(resolvable)
-		s.Add(hx.Case{Term: hx.C("Case02", fs.term(), hx.L(terms)),
-			Desc:       map[string]interface{}{"dirs": fs.desc(), "resolvable": resolvable, "steps": descs},
+		s.Add(hx.Case{Term: hx.C("Case02", fsTerm, hx.L(terms)),
+			Desc:       map[string]interface{}{"dirs": fsDesc, "resolvable": resolvable, "steps": descs, "changes_on_disk_after_the_first_step_without_refresh": diskHistory},
 			Class:      prop + "-random",
 			Nontrivial: nontrivial})
 	}
